@@ -23,35 +23,35 @@ type stdSpec struct {
 }
 
 var stdTable = map[string]stdSpec{
-	"(*bytes.Buffer).Write":       {writes: []int{0}, why: "appends to the buffer"},
-	"(*bytes.Buffer).WriteByte":   {writes: []int{0}, why: "appends to the buffer"},
-	"(*bytes.Buffer).WriteRune":   {writes: []int{0}, why: "appends to the buffer"},
-	"(*bytes.Buffer).WriteString": {writes: []int{0}, why: "appends to the buffer"},
-	"(*bytes.Buffer).Reset":       {writes: []int{0}, why: "truncates the buffer"},
-	"(*bytes.Buffer).Truncate":    {writes: []int{0}, why: "truncates the buffer"},
-	"(*bytes.Buffer).Bytes":       {retAlias: []int{0}, why: "returns the buffer's storage"},
-	"(*bytes.Buffer).String":      {why: "copies"},
-	"(*bytes.Buffer).Len":         {why: "reads"},
-	"(*strings.Builder).Write":       {writes: []int{0}, why: "appends"},
-	"(*strings.Builder).WriteByte":   {writes: []int{0}, why: "appends"},
-	"(*strings.Builder).WriteRune":   {writes: []int{0}, why: "appends"},
-	"(*strings.Builder).WriteString": {writes: []int{0}, why: "appends"},
-	"(*strings.Builder).String":      {why: "strings are immutable"},
-	"(*strings.Builder).Len":         {why: "reads"},
-	"(*strings.Builder).Grow":        {writes: []int{0}, why: "reallocates"},
-	"(*strings.Builder).Reset":       {writes: []int{0}, why: "resets"},
-	"bytes.NewBuffer":                {retFresh: true, retContains: []int{0}, why: "wraps the slice"},
-	"bytes.NewBufferString":          {retFresh: true, why: "copies the string"},
-	"bytes.NewReader":                {retFresh: true, retContains: []int{0}, why: "wraps the slice read-only"},
-	"bytes.Join":                     {retFresh: true, why: "allocates"},
-	"bytes.Equal":                    {why: "reads"},
-	"bytes.HasPrefix":                {why: "reads"},
-	"bytes.TrimSpace":                {retAlias: []int{0}, why: "sub-slice"},
-	"encoding/json.Marshal":          {retFresh: true, callbacks: "marshal:0", why: "reads v via reflection and MarshalJSON methods"},
-	"encoding/json.MarshalIndent":    {retFresh: true, callbacks: "marshal:0", why: "as Marshal"},
-	"encoding/json.Unmarshal":        {writes: []int{1}, callbacks: "unmarshal:1", why: "fills *v"},
-	"encoding/json.NewDecoder":       {retFresh: true, retContains: []int{0}, why: "wraps the reader"},
-	"encoding/json.NewEncoder":       {retFresh: true, retContains: []int{0}, why: "wraps the writer"},
+	"(*bytes.Buffer).Write":                          {writes: []int{0}, why: "appends to the buffer"},
+	"(*bytes.Buffer).WriteByte":                      {writes: []int{0}, why: "appends to the buffer"},
+	"(*bytes.Buffer).WriteRune":                      {writes: []int{0}, why: "appends to the buffer"},
+	"(*bytes.Buffer).WriteString":                    {writes: []int{0}, why: "appends to the buffer"},
+	"(*bytes.Buffer).Reset":                          {writes: []int{0}, why: "truncates the buffer"},
+	"(*bytes.Buffer).Truncate":                       {writes: []int{0}, why: "truncates the buffer"},
+	"(*bytes.Buffer).Bytes":                          {retAlias: []int{0}, why: "returns the buffer's storage"},
+	"(*bytes.Buffer).String":                         {why: "copies"},
+	"(*bytes.Buffer).Len":                            {why: "reads"},
+	"(*strings.Builder).Write":                       {writes: []int{0}, why: "appends"},
+	"(*strings.Builder).WriteByte":                   {writes: []int{0}, why: "appends"},
+	"(*strings.Builder).WriteRune":                   {writes: []int{0}, why: "appends"},
+	"(*strings.Builder).WriteString":                 {writes: []int{0}, why: "appends"},
+	"(*strings.Builder).String":                      {why: "strings are immutable"},
+	"(*strings.Builder).Len":                         {why: "reads"},
+	"(*strings.Builder).Grow":                        {writes: []int{0}, why: "reallocates"},
+	"(*strings.Builder).Reset":                       {writes: []int{0}, why: "resets"},
+	"bytes.NewBuffer":                                {retFresh: true, retContains: []int{0}, why: "wraps the slice"},
+	"bytes.NewBufferString":                          {retFresh: true, why: "copies the string"},
+	"bytes.NewReader":                                {retFresh: true, retContains: []int{0}, why: "wraps the slice read-only"},
+	"bytes.Join":                                     {retFresh: true, why: "allocates"},
+	"bytes.Equal":                                    {why: "reads"},
+	"bytes.HasPrefix":                                {why: "reads"},
+	"bytes.TrimSpace":                                {retAlias: []int{0}, why: "sub-slice"},
+	"encoding/json.Marshal":                          {retFresh: true, callbacks: "marshal:0", why: "reads v via reflection and MarshalJSON methods"},
+	"encoding/json.MarshalIndent":                    {retFresh: true, callbacks: "marshal:0", why: "as Marshal"},
+	"encoding/json.Unmarshal":                        {writes: []int{1}, callbacks: "unmarshal:1", why: "fills *v"},
+	"encoding/json.NewDecoder":                       {retFresh: true, retContains: []int{0}, why: "wraps the reader"},
+	"encoding/json.NewEncoder":                       {retFresh: true, retContains: []int{0}, why: "wraps the writer"},
 	"(*encoding/json.Decoder).Decode":                {writes: []int{0, 1}, callbacks: "unmarshal:1", why: "advances the decoder, fills *v"},
 	"(*encoding/json.Decoder).DisallowUnknownFields": {writes: []int{0}, why: "sets a flag"},
 	"(*encoding/json.Decoder).UseNumber":             {writes: []int{0}, why: "sets a flag"},
